@@ -1,6 +1,7 @@
 package main
 
 import (
+	"context"
 	"fmt"
 	"strings"
 
@@ -37,6 +38,9 @@ func (p c08P) name() string {
 	}
 	if p.Push {
 		s += " push"
+	}
+	if p.Conc != 0 {
+		s += fmt.Sprintf(" conc=%d", p.Conc)
 	}
 	return s
 }
@@ -77,7 +81,21 @@ func c08Scenario(p c08P, b Bounds) *Scenario {
 					conc = 2
 				}
 				active0 := jrpc2.ServerMetrics().Get("servers_active").String()
-				srv = jrpc2.NewServer(anyAssigner{h.handler()}, &jrpc2.ServerOptions{Concurrency: conc, AllowPush: p.Push})
+				sopts := &jrpc2.ServerOptions{Concurrency: conc, AllowPush: p.Push}
+				baseCancel := func() {}
+				restarted := false
+				if strings.Contains(p.Cause, "basectx") {
+					// the application's own base context, ended by the application before it stops the server
+					var baseCtx context.Context
+					baseCtx, baseCancel = cancelCauseCtx()
+					sopts.NewContext = func() context.Context {
+						if restarted {
+							return context.Background()
+						}
+						return baseCtx
+					}
+				}
+				srv = jrpc2.NewServer(anyAssigner{h.handler()}, sopts)
 				srv.Start(lib)
 				causeDone := false
 				// the peer reads until it sees the end of the stream and then closes its own end
@@ -114,6 +132,9 @@ func c08Scenario(p c08P, b Bounds) *Scenario {
 					}
 					for _, c := range strings.Split(p.Cause, "+") {
 						switch c {
+						case "basectx":
+							vs.Note("basectx-ended")
+							baseCancel()
 						case "stop":
 							vs.Event("call", "Stop")
 							srv.Stop()
@@ -158,6 +179,7 @@ func c08Scenario(p c08P, b Bounds) *Scenario {
 					fmt.Sprintf("active_delta=%v", jrpc2.ServerMetrics().Get("servers_active").String() != active0))
 				// restart on a fresh channel
 				lib2, peer2, _ := NewPipe(PipeOpts{Name: "srv2", CloseUnblocksRecv: true, Quiet: true})
+				restarted = true
 				srv.Start(lib2)
 				peer2.Send([]byte(`{"jsonrpc":"2.0","id":99,"method":"c9_9"}`))
 				rsp, ok := peer2.Recv()
@@ -237,7 +259,7 @@ func c08Scenario(p c08P, b Bounds) *Scenario {
 					}
 				}
 				if p.Stepped && fault < 0 {
-					first := strings.Split(p.Cause, "+")[0]
+					first := strings.Split(strings.TrimPrefix(p.Cause, "basectx+"), "+")[0]
 					if first == "stop" && retStop >= 0 && flags != "stopped=true closed=false" {
 						v = append(v, Viol{"C08.R4", "Stop completed first but status is " + flags + " err=" + errS})
 					}
@@ -273,7 +295,7 @@ func c08Scenario(p c08P, b Bounds) *Scenario {
 					}
 				}
 				// R6: valid notifications received (unambiguously) before the stop are handed to their handlers
-				if p.Stepped {
+				if p.Stepped && !strings.Contains(p.Cause, "basectx") { // a handler whose base context has ended need not be started
 					q := findEv(x, 0, "quiet", "before-cause")
 					for i, m := range h.msgs[:len(p.Traffic)] {
 						for _, mem := range m.Members {
@@ -374,6 +396,12 @@ func c08Scenarios(tier string) []*Scenario {
 		add(c08P{Traffic: []string{"n", "c"}, Cause: "faults", Unblock: true}, Bounds{1, 1, 1})
 		add(c08P{Traffic: []string{"g"}, Cause: "stop+peerclose", Stepped: true, Unblock: true}, Bounds{1, 1, 0})
 		add(c08P{Traffic: []string{"g"}, Cause: "peerclose+stop", Stepped: true, Unblock: true}, Bounds{1, 1, 0})
+		// the application ends the base context of the requests (ServerOptions.NewContext) and then stops the server,
+		// with notifications queued behind a running one and a call waiting for the only slot
+		for _, t := range [][]string{{"h", "n", "n"}, {"h", "[nn]", "c"}, {"g", "n", "c"}} {
+			add(c08P{Traffic: t, Cause: "basectx+stop", Stepped: true, Unblock: true, Conc: 1}, Bounds{1, 1, 0})
+			add(c08P{Traffic: t, Cause: "basectx+peerclose", Stepped: true, Unblock: true, Conc: 2}, Bounds{1, 1, 0})
+		}
 		// handlers awaiting a callback that is never answered: every stop cause must release them
 		for _, t := range [][]string{{"p"}, {"q"}} {
 			add(c08P{Traffic: t, Cause: "stop", Stepped: true, Unblock: true, Push: true}, Bounds{1, 1, 0})
@@ -396,6 +424,13 @@ func c08Scenarios(tier string) []*Scenario {
 			add(c08P{Traffic: t, Cause: "stop+peerclose", Stepped: true, Unblock: unb}, Bounds{2, 1, 0})
 			add(c08P{Traffic: t, Cause: "peerclose+stop", Stepped: true, Unblock: unb}, Bounds{2, 1, 0})
 			add(c08P{Traffic: t, Cause: "stop+peerclose", Unblock: unb}, Bounds{2, 1, 0})
+		}
+	}
+	for _, t := range [][]string{{"h", "n", "n"}, {"h", "[nn]", "c"}, {"g", "n", "c"}, {"h", "n"}, {"n", "n"}, {"g", "[nc]", "n"}} {
+		for _, conc := range []int{1, 2} {
+			add(c08P{Traffic: t, Cause: "basectx+stop", Stepped: true, Unblock: true, Conc: conc}, Bounds{2, 2, 0})
+			add(c08P{Traffic: t, Cause: "basectx+stop", Unblock: false, Conc: conc}, Bounds{2, 1, 0})
+			add(c08P{Traffic: t, Cause: "basectx+peerclose", Stepped: true, Unblock: true, Conc: conc}, Bounds{2, 2, 0})
 		}
 	}
 	for _, t := range [][]string{{"p"}, {"q"}, {"p", "c"}} {
